@@ -1,2 +1,708 @@
+//! C37: block-quantized (4-bit) matrix multiplication vs dequantize-then-
+//! multiply in f64, for BlockQuantizedGemm (float and int8-activation modes)
+//! and for GemmExecutor with a block-quantized B input (the path rten's
+//! MatMulNBits uses when there is more than one row).
+use std::mem::MaybeUninit;
+
+use rten_gemm::{BlockQuantizedGemm, BlockQuantizedMatrix, ComputeMode, GemmExecutor, GemmInputA, GemmInputB, GemmUninitOptions};
+use rten_simd::verif::{IsaKind, set_forced_isa};
+use rten_tensor::{Contiguous, Matrix, NdTensorView};
+use vcommon::guard::GuardPos;
 use vcommon::*;
-pub fn run(_a: &Args) {}
+
+use crate::common::*;
+
+const POISON_BITS: u32 = 0xFFFF_FFFF;
+const EPS: f64 = f32::EPSILON as f64;
+
+#[derive(Clone, Debug, PartialEq)]
+pub struct Case {
+    /// "float:<isa>" (BlockQuantizedGemm, ComputeMode::Float, forced ISA),
+    /// "int8" (BlockQuantizedGemm, ComputeMode::Int8, best ISA), or
+    /// "gemm:<kernel>" (GemmExecutor::gemm_uninit with GemmInputB::BlockQuantized).
+    pub mode: String,
+    pub batch: usize,
+    pub m: usize,
+    pub n: usize,
+    pub block: usize,
+    pub k_blocks: usize,
+    /// Scales: 0 uniform(0.01,1), 1 mixed sign, 2 tiny (2^-60), 3 very tiny
+    /// (1e-37), 4 some zero, 5 powers of two, 6 all negative.
+    pub scales: u8,
+    /// Quantized nibbles: 0 random, 1 all 0 (=-8), 2 all 15 (=+7), 3 all 8 (=0), 4 alternating 0/15.
+    pub nibbles: u8,
+    /// LHS values: 0 uniform(-1,1), 1 multiples of 1/8, 2 mixed magnitude, 3 sparse, 4 constant.
+    pub lhs_vals: u8,
+    /// LHS layout: 0 contiguous, 1 rows padded, 2 transposed last two dims.
+    pub lhs_lay: u8,
+    /// 0 = scales shape matches; otherwise a deliberately wrong scales shape:
+    /// 1 (n-1, kb), 2 (n+1, kb), 3 (n, kb-1), 4 (n, kb+1), 5 (kb, n) transposed.
+    pub mismatch: u8,
+    pub threads: usize,
+    pub data_seed: u64,
+}
+
+impl Case {
+    pub fn k(&self) -> usize {
+        self.block * self.k_blocks
+    }
+
+    pub fn to_json(&self) -> Json {
+        json!({"mode": self.mode, "batch": self.batch, "m": self.m, "n": self.n, "block": self.block, "k_blocks": self.k_blocks,
+               "scales": self.scales, "nibbles": self.nibbles, "lhs_vals": self.lhs_vals, "lhs_lay": self.lhs_lay,
+               "mismatch": self.mismatch, "threads": self.threads, "data_seed": self.data_seed.to_string()})
+    }
+
+    pub fn from_json(j: &Json) -> Case {
+        Case {
+            mode: js(j, "mode"),
+            batch: ju(j, "batch"),
+            m: ju(j, "m"),
+            n: ju(j, "n"),
+            block: ju(j, "block"),
+            k_blocks: ju(j, "k_blocks"),
+            scales: ju(j, "scales") as u8,
+            nibbles: ju(j, "nibbles") as u8,
+            lhs_vals: ju(j, "lhs_vals") as u8,
+            lhs_lay: ju(j, "lhs_lay") as u8,
+            mismatch: ju(j, "mismatch") as u8,
+            threads: ju(j, "threads").max(1),
+            data_seed: j["data_seed"].as_str().and_then(|s| s.parse().ok()).unwrap_or(0),
+        }
+    }
+
+    pub fn nontrivial(&self) -> bool {
+        self.mismatch == 0 && self.k_blocks >= 2 && self.batch >= 1 && self.m >= 1 && self.n >= 1
+    }
+
+    /// Whether the int8-activation code is really used (rten only quantizes
+    /// the activations for single-row inputs).
+    pub fn int8_active(&self) -> bool {
+        self.mode == "int8" && self.m == 1
+    }
+
+    pub fn identity(&self) -> String {
+        format!("{}|{}|{}|{}|{}|{}|{}{}{}{}", self.mode, self.batch, self.m, self.n, self.block, self.k_blocks, self.scales, self.nibbles, self.lhs_vals, self.lhs_lay)
+    }
+}
+
+pub fn signature(case: &Case, kind: &str, guard: Option<GuardPos>) -> String {
+    let mut parts = vec![
+        "C37".to_string(),
+        format!("mode={}", case.mode),
+        format!("fail={}", kind),
+        format!("batch={},m={},n={},block={},k_blocks={}", case.batch, case.m, case.n, case.block, case.k_blocks),
+    ];
+    if case.mismatch != 0 {
+        parts.push(format!("scales_shape={}", ["ok", "(n-1,kb)", "(n+1,kb)", "(n,kb-1)", "(n,kb+1)", "(kb,n)"][case.mismatch as usize % 6]));
+    }
+    if case.scales != 0 {
+        parts.push(format!("scales={}", ["uniform", "mixed_sign", "tiny", "very_tiny", "some_zero", "pow2", "negative"][case.scales as usize % 7]));
+    }
+    if case.nibbles != 0 {
+        parts.push(format!("nibbles={}", case.nibbles));
+    }
+    if case.lhs_lay != 0 {
+        parts.push(format!("lhs_lay={}", case.lhs_lay));
+    }
+    if case.threads > 1 {
+        parts.push("threads>1".into());
+    }
+    if let Some(g) = guard {
+        parts.push(format!("guard={}", guard_name(Some(g))));
+    }
+    parts.join("|")
+}
+
+fn lhs_value(rng: &mut Rng, mode: u8, konst: f32) -> f32 {
+    match mode {
+        0 => rng.f32_in(-1.0, 1.0),
+        1 => rng.small_f32(),
+        2 => rng.f32_in(-1.0, 1.0) * 2f32.powi(rng.range(-10, 3) as i32),
+        3 => {
+            if rng.chance(2, 3) {
+                0.0
+            } else {
+                rng.f32_in(-2.0, 2.0)
+            }
+        }
+        _ => konst,
+    }
+}
+
+fn scale_value(rng: &mut Rng, mode: u8) -> f32 {
+    match mode {
+        0 => rng.f32_in(0.01, 1.0),
+        1 => rng.f32_in(0.01, 1.0) * if rng.bool() { -1.0 } else { 1.0 },
+        2 => rng.f32_in(0.5, 1.0) * 2f32.powi(-60) * if rng.bool() { -1.0 } else { 1.0 },
+        3 => rng.f32_in(0.5, 1.0) * 1e-37,
+        4 => {
+            if rng.chance(1, 3) {
+                0.0
+            } else {
+                rng.f32_in(-1.0, 1.0)
+            }
+        }
+        5 => 2f32.powi(rng.range(-6, 2) as i32),
+        _ => -rng.f32_in(0.01, 1.0),
+    }
+}
+
+pub fn modes_available() -> Vec<String> {
+    let mut v = Vec::new();
+    for (name, kind) in [("generic", IsaKind::Generic), ("avx2", IsaKind::Avx2), ("avx512", IsaKind::Avx512)] {
+        if rten_simd::verif::isa_available(kind) && !(is_miri() && name != "generic") {
+            v.push(format!("float:{}", name));
+        }
+    }
+    v.push("int8".to_string());
+    for (name, _) in rten_gemm::verif::f32_kernels() {
+        v.push(format!("gemm:{}", name));
+    }
+    v
+}
+
+pub fn gen_case(rng: &mut Rng, mode: &str, guard_phase: bool) -> Case {
+    let small = is_miri();
+    let block = if small {
+        *rng.choose(&[16usize, 32])
+    } else {
+        match rng.below(20) {
+            0 => 512,
+            _ => *rng.choose(&[16usize, 32, 64, 128, 256]),
+        }
+    };
+    // K/128 and K/64 matter (elements per 512/256-bit vector of nibbles), as
+    // does the number of blocks modulo the number of scales per vector.
+    let max_blocks = if small { 3 } else { (1536 / block).clamp(3, 20) };
+    let k_blocks = match rng.below(12) {
+        0 => 0,
+        1 => 1,
+        _ => rng.urange(1, max_blocks),
+    };
+    let m = if small { *rng.choose(&[1usize, 2]) } else { *rng.choose(&[1usize, 1, 1, 2, 7, 33]) };
+    let n = match rng.below(10) {
+        0 => 0,
+        1 => 1,
+        _ => {
+            if small {
+                rng.urange(1, 5)
+            } else {
+                *rng.choose(&[2usize, 3, 4, 5, 15, 16, 17, 31, 32, 33, 40, 64, 65])
+            }
+        }
+    };
+    let mut batch = if small { rng.urange(0, 2) } else { rng.urange(0, 5) };
+    while !small && batch * m * n * block * k_blocks > MAX_PRODUCT && batch > 1 {
+        batch -= 1;
+    }
+    // Wrong scales shapes may fault: only in the forked (guard page) phase.
+    let mismatch = if guard_phase && rng.chance(1, 4) { rng.urange(1, 5) as u8 } else { 0 };
+    Case {
+        mode: mode.to_string(),
+        batch,
+        m,
+        n,
+        block,
+        k_blocks,
+        scales: rng.below(7) as u8,
+        nibbles: if rng.chance(2, 3) { 0 } else { rng.urange(1, 4) as u8 },
+        lhs_vals: rng.below(5) as u8,
+        lhs_lay: rng.below(3) as u8,
+        mismatch,
+        threads: if guard_phase { *rng.choose(&[1usize, 1, 3]) } else { *rng.choose(&[1usize, 4]) },
+        data_seed: rng.next_u64(),
+    }
+}
+
+pub fn exec(case: &Case, guard: Option<GuardPos>) -> Outcome {
+    with_threads(case.threads, || exec_inner(case, guard))
+}
+
+fn exec_inner(case: &Case, guard: Option<GuardPos>) -> Outcome {
+    let mut rng = Rng::derive(case.data_seed, 0xB9);
+    let (batch, m, n, block, kb) = (case.batch, case.m, case.n, case.block, case.k_blocks);
+    let k = block * kb;
+    let block_bytes = block / 2;
+
+    // ---- weights
+    let quant: Vec<u8> = (0..n * kb * block_bytes)
+        .map(|i| match case.nibbles {
+            0 => rng.next_u32() as u8,
+            1 => 0x00,
+            2 => 0xFF,
+            3 => 0x88,
+            _ => {
+                if i % 2 == 0 {
+                    0xF0
+                } else {
+                    0x0F
+                }
+            }
+        })
+        .collect();
+    let (sn, skb) = match case.mismatch {
+        0 => (n, kb),
+        1 => (n.saturating_sub(1), kb),
+        2 => (n + 1, kb),
+        3 => (n, kb.saturating_sub(1)),
+        4 => (n, kb + 1),
+        _ => (kb, n),
+    };
+    let effective_mismatch = (sn, skb) != (n, kb);
+    let scales: Vec<f32> = (0..sn * skb).map(|_| scale_value(&mut rng, case.scales)).collect();
+    let quant_buf = Buf::new(quant, guard);
+    let scales_buf = Buf::new(scales, guard);
+
+    // ---- activations: logical [batch, m, k]
+    let konst = rng.f32_in(-2.0, 2.0);
+    let (lhs_strides, lhs_len): ([usize; 3], usize) = match case.lhs_lay {
+        1 => ([m * (k + 3), k + 3, 1], if batch * m * k == 0 { 0 } else { (batch - 1) * m * (k + 3) + (m - 1) * (k + 3) + k }),
+        2 => ([m * k, 1, m], batch * m * k),
+        _ => ([m * k, k, 1], batch * m * k),
+    };
+    let mut lhs = vec![f32::NAN; lhs_len];
+    for b in 0..batch {
+        for r in 0..m {
+            for c in 0..k {
+                lhs[b * lhs_strides[0] + r * lhs_strides[1] + c * lhs_strides[2]] = lhs_value(&mut rng, case.lhs_vals, konst);
+            }
+        }
+    }
+    let lhs_buf = Buf::new(lhs, guard);
+
+    // ---- output
+    let out_len = batch * m * n;
+    let mut heap: Vec<f32>;
+    let mut guarded: Buf<MaybeUninit<f32>>;
+    let out: &mut [MaybeUninit<f32>] = if is_miri() {
+        heap = Vec::with_capacity(out_len);
+        &mut heap.spare_capacity_mut()[..out_len]
+    } else {
+        guarded = Buf::new(vec![MaybeUninit::new(f32::from_bits(POISON_BITS)); out_len], guard);
+        guarded.as_mut_slice()
+    };
+
+    // ---- construct the matrix and multiply
+    let quant_view = NdTensorView::from_data([n, kb, block_bytes], quant_buf.as_slice());
+    let scales_view = NdTensorView::from_data([sn, skb], scales_buf.as_slice());
+    let lhs_view = match NdTensorView::from_slice_with_strides([batch, m, k], lhs_buf.as_slice(), lhs_strides) {
+        Ok(v) => v,
+        Err(e) => return Outcome::no_result(format!("harness_lhs_view:{:?}", e)),
+    };
+    let mat = match catch(|| BlockQuantizedMatrix::new(Contiguous::new(quant_view).unwrap(), Contiguous::new(scales_view).unwrap(), 4)) {
+        Ok(Ok(mat)) => mat,
+        Ok(Err(e)) => {
+            return if effective_mismatch {
+                let mut o = Outcome::no_result(format!("new_error:{:?}", e));
+                o.tags.push("mismatch_rejected_by_new".into());
+                o
+            } else {
+                Outcome::fail(&format!("new_error:{:?}", e), json!({"error": format!("{:?}", e)}))
+            };
+        }
+        Err(msg) => {
+            return if effective_mismatch {
+                Outcome::no_result(format!("new_panic:{}", short(&msg)))
+            } else {
+                Outcome::fail(&format!("panic@new:{}", short(&msg)), json!({"panic": msg}))
+            };
+        }
+    };
+
+    let result: Result<Result<Vec<f32>, String>, String> = if let Some(kernel) = case.mode.strip_prefix("gemm:") {
+        let Some((_, gemm)) = rten_gemm::verif::f32_kernels().into_iter().find(|(n, _)| n == kernel) else {
+            return Outcome::no_result("kernel unavailable".into());
+        };
+        // The operator flattens [batch, m, k] to [batch*m, k]; do the same
+        // on the logical matrix (needs a contiguous copy unless already so).
+        let rows = batch * m;
+        let flat: Buf<f32>;
+        let a: Matrix<f32> = if case.lhs_lay == 0 {
+            Matrix::from_data([rows, k], lhs_buf.as_slice())
+        } else {
+            let mut v = Vec::with_capacity(rows * k);
+            for b in 0..batch {
+                for r in 0..m {
+                    for c in 0..k {
+                        v.push(lhs_buf.as_slice()[b * lhs_strides[0] + r * lhs_strides[1] + c * lhs_strides[2]]);
+                    }
+                }
+            }
+            flat = Buf::new(v, guard);
+            Matrix::from_data([rows, k], flat.as_slice())
+        };
+        run_gemm(&gemm, out, a, mat)
+    } else {
+        let (compute, isa) = match case.mode.as_str() {
+            "int8" => (ComputeMode::Int8, None),
+            "float:generic" => (ComputeMode::Float, Some(IsaKind::Generic)),
+            "float:avx2" => (ComputeMode::Float, Some(IsaKind::Avx2)),
+            "float:avx512" => (ComputeMode::Float, Some(IsaKind::Avx512)),
+            other => return Outcome::no_result(format!("unknown mode {}", other)),
+        };
+        if !set_forced_isa(isa) {
+            return Outcome::no_result("isa unavailable".into());
+        }
+        let gemm = BlockQuantizedGemm::new().with_compute(compute);
+        let out_ptr = out.as_ptr() as usize;
+        let r = catch(|| gemm.batched_gemm_uninit(out, lhs_view, mat));
+        set_forced_isa(None);
+        r.map(|r| match r {
+            Ok(init) => {
+                if init.len() != out_len || init.as_ptr() as usize != out_ptr {
+                    Err("RETURNED_SLICE differs from the output buffer".into())
+                } else {
+                    Ok(init.to_vec())
+                }
+            }
+            Err(e) => Err(format!("{:?}", e)),
+        })
+    };
+
+    let out = match result {
+        Err(msg) => {
+            return if effective_mismatch {
+                let mut o = Outcome::no_result(format!("panic:{}", short(&msg)));
+                o.tags.push("mismatch_panicked".into());
+                o
+            } else {
+                Outcome::fail(&format!("panic@multiply:{}", short(&msg)), json!({"panic": msg}))
+            };
+        }
+        Ok(Err(e)) if e.starts_with("RETURNED_SLICE") => return Outcome::fail("bad_returned_slice", json!({"what": e})),
+        Ok(Err(e)) => {
+            return if effective_mismatch {
+                let mut o = Outcome::no_result(format!("error:{}", e));
+                o.tags.push("mismatch_rejected_by_multiply".into());
+                o
+            } else {
+                Outcome::fail(&format!("error:{}", e), json!({"error": e}))
+            };
+        }
+        Ok(Ok(out)) => out,
+    };
+
+    if effective_mismatch {
+        // A wrong scales shape was accepted. The values are unspecified, but
+        // returning never-written memory as initialised f32 is not allowed
+        // (and a fault is caught by the guard pages).
+        let unwritten = out.iter().filter(|v| v.to_bits() == POISON_BITS).count();
+        return if unwritten > 0 {
+            Outcome::fail("mismatch_accepted_output_unwritten", json!({"unwritten": unwritten, "elements": out.len(), "scales_shape": [sn, skb], "quant_shape": [n, kb, block_bytes]}))
+        } else {
+            let mut o = Outcome::ok(0.0);
+            o.tags.push("mismatch_accepted_values_unspecified".into());
+            o
+        };
+    }
+
+    // ---- reference: dequantize, multiply in f64
+    let q = quant_buf.as_slice();
+    let sc = scales_buf.as_slice();
+    let l = lhs_buf.as_slice();
+    // w[col][kk]
+    let mut w = vec![0f64; n * k];
+    for col in 0..n {
+        for kk in 0..k {
+            let blk = kk / block;
+            let within = kk % block;
+            let byte = q[(col * kb + blk) * block_bytes + within / 2];
+            let nib = if within % 2 == 0 { byte & 0x0F } else { byte >> 4 };
+            w[col * k + kk] = (nib as i32 - 8) as f64 * sc[col * kb + blk] as f64;
+        }
+    }
+    let int8 = case.int8_active();
+    let mut max_ratio = 0f64;
+    let mut first_bad: Option<(String, Json)> = None;
+    let mut n_bad = 0u64;
+    for b in 0..batch {
+        for r in 0..m {
+            let row: Vec<f64> = (0..k).map(|c| l[b * lhs_strides[0] + r * lhs_strides[1] + c * lhs_strides[2]] as f64).collect();
+            // per-block activation quantization step (int8 mode)
+            let step: Vec<f64> = (0..kb).map(|blk| row[blk * block..(blk + 1) * block].iter().fold(0f64, |a, x| a.max(x.abs())) / 127.0).collect();
+            for col in 0..n {
+                let wc = &w[col * k..(col + 1) * k];
+                let mut s = 0f64;
+                let mut sa = 0f64;
+                let mut qerr = 0f64;
+                for kk in 0..k {
+                    let p = row[kk] * wc[kk];
+                    s += p;
+                    sa += p.abs();
+                    if int8 {
+                        qerr += 0.5 * step[kk / block] * wc[kk].abs();
+                    }
+                }
+                // accumulation bound, plus (int8 mode) the bound implied by
+                // rounding each activation to a multiple of max|a|/127 of its
+                // block, plus slack for underflow with tiny scales.
+                let bound = 4.0 * (k as f64 + 2.0) * EPS * (sa + qerr) + qerr * (1.0 + 1e-3) + (k as f64 + 2.0) * 1e-37;
+                let got = out[(b * m + r) * n + col];
+                let kind = if got.to_bits() == POISON_BITS {
+                    Some("unwritten")
+                } else if !got.is_finite() {
+                    Some("nonfinite")
+                } else {
+                    let err = (got as f64 - s).abs();
+                    max_ratio = max_ratio.max(err / bound);
+                    if err > bound { Some("mismatch") } else { None }
+                };
+                if let Some(kind) = kind {
+                    n_bad += 1;
+                    if first_bad.is_none() {
+                        first_bad = Some((kind.to_string(), json!({"batch": b, "row": r, "col": col, "got": format!("{:e}", got), "want": s, "bound": bound, "quantization_part_of_bound": qerr})));
+                    }
+                }
+            }
+        }
+    }
+    match first_bad {
+        Some((kind, mut detail)) => {
+            detail["bad_elements"] = json!(n_bad);
+            detail["elements"] = json!(out.len());
+            let mut o = Outcome::fail(&kind, detail);
+            o.ratio = max_ratio;
+            o
+        }
+        None => Outcome::ok(max_ratio),
+    }
+}
+
+fn run_gemm(gemm: &GemmExecutor, out: &mut [MaybeUninit<f32>], a: Matrix<f32>, mat: BlockQuantizedMatrix<f32>) -> Result<Result<Vec<f32>, String>, String> {
+    let out_len = out.len();
+    let out_ptr = out.as_ptr() as usize;
+    let r = catch(|| gemm.gemm_uninit(out, GemmInputA::Unpacked(a), GemmInputB::BlockQuantized(mat), GemmUninitOptions::default()));
+    r.map(|r| match r {
+        Ok(init) => {
+            if init.len() != out_len || init.as_ptr() as usize != out_ptr {
+                Err("RETURNED_SLICE differs from the output buffer".into())
+            } else {
+                Ok(init.to_vec())
+            }
+        }
+        Err(e) => Err(format!("{:?}", e)),
+    })
+}
+
+fn short(msg: &str) -> String {
+    let class = panic_class(msg);
+    let (head, loc) = class.rsplit_once(" @ ").unwrap_or((&class, ""));
+    let file = loc.rsplit('/').next().unwrap_or("").split(':').next().unwrap_or("");
+    let head: String = head.chars().take(60).collect();
+    format!("{}@{}", head.trim(), file)
+}
+
+fn shrink(case: &Case, guard: Option<GuardPos>, kind: &str, run: &mut dyn FnMut(&Case, Option<GuardPos>) -> Outcome) -> (Case, Option<GuardPos>, u32) {
+    let mut cur = case.clone();
+    let mut g = guard;
+    let mut runs = 0u32;
+    let mut still = |c: &Case, g: Option<GuardPos>, runs: &mut u32| -> bool {
+        if *runs >= 150 {
+            return false;
+        }
+        *runs += 1;
+        run(c, g).fail_kind() == Some(kind)
+    };
+    if g.is_some() && !kind.starts_with("fault") && still(&cur, None, &mut runs) {
+        g = None;
+    }
+    let steps: Vec<Box<dyn Fn(&mut Case)>> = vec![
+        Box::new(|c| c.threads = 1),
+        Box::new(|c| c.batch = c.batch.min(1)),
+        Box::new(|c| c.lhs_lay = 0),
+        Box::new(|c| c.scales = 5),
+        Box::new(|c| c.nibbles = 0),
+        Box::new(|c| c.lhs_vals = 1),
+    ];
+    for f in &steps {
+        let mut c = cur.clone();
+        f(&mut c);
+        if c != cur && still(&c, g, &mut runs) {
+            cur = c;
+        }
+    }
+    for cand in [1usize, 2, 7] {
+        if cand < cur.m {
+            let mut c = cur.clone();
+            c.m = cand;
+            if still(&c, g, &mut runs) {
+                cur = c;
+                break;
+            }
+        }
+    }
+    for cand in [16usize, 32, 64, 128, 256] {
+        if cand < cur.block {
+            let mut c = cur.clone();
+            c.block = cand;
+            if still(&c, g, &mut runs) {
+                cur = c;
+                break;
+            }
+        }
+    }
+    for _pass in 0..2 {
+        let before = cur.clone();
+        for cand in 0..cur.k_blocks {
+            let mut c = cur.clone();
+            c.k_blocks = cand;
+            if still(&c, g, &mut runs) {
+                cur = c;
+                break;
+            }
+        }
+        for cand in smaller_dims(cur.n, 0) {
+            let mut c = cur.clone();
+            c.n = cand;
+            if still(&c, g, &mut runs) {
+                cur = c;
+                break;
+            }
+        }
+        if cur == before {
+            break;
+        }
+    }
+    (cur, g, runs)
+}
+
+pub struct BqEngine {
+    modes: Vec<String>,
+    seed: u64,
+    stream: u64,
+}
+
+impl Engine for BqEngine {
+    type Case = Case;
+
+    fn gen_case(&self, idx: u64, guard_phase: bool) -> Case {
+        let mut rng = Rng::derive(self.seed, (self.stream << 24) ^ ((guard_phase as u64) << 23) ^ idx);
+        let mode = &self.modes[(idx as usize) % self.modes.len()];
+        gen_case(&mut rng, mode, guard_phase)
+    }
+
+    fn exec(&self, case: &Case, guard: Option<GuardPos>) -> Outcome {
+        exec(case, guard)
+    }
+
+    fn record(&self, rep: &mut Report, case: &Case, o: &Outcome, guarded: bool) {
+        rep.eval();
+        rep.count(&format!("problems:mode={}", case.mode));
+        if guarded {
+            rep.count("guard_page_cases");
+        }
+        if case.mismatch != 0 {
+            rep.count("scales_shape_mismatch_cases");
+        }
+        for t in &o.tags {
+            rep.count(t);
+        }
+        match &o.status {
+            Status::Ok => {
+                if case.mismatch == 0 {
+                    rep.count("results_checked");
+                    rep.count(&format!("checked:block={}", case.block));
+                    rep.max(&format!("max_err_over_bound_ppm:mode={}", case.mode), (o.ratio * 1e6) as u64);
+                    if case.int8_active() {
+                        rep.count("int8_activation_path_checked");
+                    }
+                    if case.k() == 0 {
+                        rep.count("k_zero_checked");
+                    }
+                    if case.nontrivial() {
+                        rep.nontrivial(&case.identity());
+                    }
+                }
+            }
+            Status::NoResult(why) => rep.count(&format!("no_result:{}", why)),
+            Status::Fail { .. } => {}
+        }
+    }
+
+    fn report_failure(&self, rep: &mut Report, case: &Case, guard: Option<GuardPos>, o: &Outcome, shared: Option<&Shared>) {
+        let kind = o.fail_kind().unwrap().to_string();
+        let mut runner = |c: &Case, g: Option<GuardPos>| match shared {
+            Some(sh) => exec_in_child(self, sh, c, g),
+            None => self.exec(c, None),
+        };
+        let (small, g, runs) = shrink(case, guard, &kind, &mut runner);
+        let final_o = runner(&small, g);
+        let (detail, final_kind) = match &final_o.status {
+            Status::Fail { kind, detail } => (detail.clone(), kind.clone()),
+            _ => (json!(null), kind.clone()),
+        };
+        rep.violation(
+            signature(&small, &final_kind, g),
+            format!(
+                "block-quantized matmul, mode {} (guard {}): {} on batch={} m={} n={} block={} k_blocks={} scales mode {} mismatch {} [{}]",
+                small.mode,
+                guard_name(g),
+                final_kind,
+                small.batch,
+                small.m,
+                small.n,
+                small.block,
+                small.k_blocks,
+                small.scales,
+                small.mismatch,
+                detail
+            ),
+            json!({"sub": "bq", "case": small.to_json(), "guard": guard_name(g), "fail": final_kind, "detail": detail,
+                   "original_case": case.to_json(), "original_guard": guard_name(guard), "shrink_runs": runs, "seed": self.seed}),
+        );
+    }
+
+    fn coarse_class(&self, case: &Case, kind: &str) -> String {
+        format!("{}|{}|{}", case.mode, kind, case.mismatch)
+    }
+
+    fn fault_class(&self, case: &Case) -> String {
+        format!("{}|{}", case.mode, case.mismatch)
+    }
+
+    fn sample(&self, case: &Case, o: &Outcome) -> Option<Json> {
+        if case.nontrivial() { Some(json!({"case": case.to_json(), "max_err_over_bound": o.ratio})) } else { None }
+    }
+}
+
+pub const RULE: &str = "BlockQuantizedMatrix (4-bit, zero point 8 - the API has no zero-point input) times f32 activations through (a) BlockQuantizedGemm ComputeMode::Float with the ISA forced to generic / AVX2 / AVX-512, (b) BlockQuantizedGemm ComputeMode::Int8 (best ISA; activations are only quantized when M = 1), (c) GemmExecutor::gemm_uninit with GemmInputB::BlockQuantized for every f32 kernel (the path MatMulNBits takes for M > 1); block sizes 16..256 and occasionally 512; 0..20 blocks per column (K = 0 included); N from {0,1,2,3,4,5,15,16,17,31,32,33,40,64,65}; M from {1,2,7,33}; batch 0..5; scales uniform / mixed sign / tiny (2^-60, 1e-37) / some zero / powers of two / negative; nibble patterns random and extreme; activations contiguous, row-padded or transposed; 1 and 4 threads; a quarter of the cases in forked children with weights, scales, activations and output on guard pages; a quarter of the forked cases give `new` a scales tensor of the wrong shape (must be an error, a panic, or a fully written result - never a fault or never-written output). Oracle: dequantize ((nibble-8)*scale) and multiply in f64; |err| <= 4*(K+2)*eps*sum|a_i*w_i| (+ in int8 mode sum_i 0.5*(max|a| of the block/127)*|w_i|, the bound implied by rounding each activation to int8 with a per-block scale, times 1.001) + (K+2)*1e-37; output pre-filled with 0xFF bytes. Non-trivial = matching shapes, at least 2 blocks per column, batch, M, N >= 1";
+
+pub fn run(args: &Args) {
+    let mut rep = Report::new("C37", "gemmcheck bq", args, RULE);
+    rep.max_samples = 8;
+    let e = BqEngine { modes: modes_available(), seed: args.seed, stream: 0xC37_000 + args.shard as u64 };
+    rep.note("modes", json!(e.modes));
+    rep.note("int8_compute_optimized", json!(BlockQuantizedGemm::is_compute_optimized(ComputeMode::Int8)));
+    for want in ["float:generic", "float:avx2", "float:avx512", "gemm:Generic", "gemm:Fma", "gemm:Avx512"] {
+        if !e.modes.iter().any(|m| m == want) {
+            rep.count(&format!("mode_unavailable:{}", want));
+        }
+    }
+
+    if let Some(path) = &args.replay {
+        let w = read_witness(path);
+        let case = Case::from_json(&w["case"]);
+        let guard = guard_from_name(w["guard"].as_str().unwrap_or("none"));
+        let o = if is_miri() { e.exec(&case, None) } else { exec_in_child(&e, &Shared::new(), &case, guard) };
+        e.record(&mut rep, &case, &o, guard.is_some());
+        rep.nontrivial(&case.identity());
+        if let Status::Fail { kind, detail } = &o.status {
+            rep.violation(
+                signature(&case, kind, guard),
+                format!("replay: block-quantized matmul mode {}: {} [{}]", case.mode, kind, detail),
+                json!({"sub": "bq", "case": case.to_json(), "guard": guard_name(guard), "fail": kind, "detail": detail, "seed": args.seed}),
+            );
+        }
+        rep.finish();
+        return;
+    }
+
+    let total = args.budget(6_000, 600_000);
+    let n_guard = if is_miri() { 0 } else { total / 4 };
+    drive(&e, &mut rep, n_guard, total - n_guard);
+    if rep.nontrivial_count() == 0 {
+        rep.inconclusive = Some("no non-trivial block-quantized product produced a result".into());
+    }
+    rep.finish();
+}
